@@ -3,6 +3,7 @@
 use crate::runner::{entry, Entry};
 
 pub mod c01;
+pub mod c02;
 pub mod c03;
 pub mod c07;
 pub mod c08;
@@ -22,6 +23,14 @@ pub fn registry() -> Vec<Entry> {
             150_000,
             "ABI-safe but internally wild programs (1-4 functions: multi-step and nested sp adjustment, re-used stack slots, sw zero, store-then-redefine-then-reload, sub-word stack accesses, red-zone stores across calls, arithmetic on sp copies, folding chains over all operators with boundary constants, la + loads/stores, ecalls with results, mv into a7, diamonds, counted loops, early returns, recursion) x 3-5 vectors of initial registers / memory / environment results, executed on the reference machine. At every step every claim in the node's in/out value maps of the kinds the statement names (constant, label address, entry value + constant; for registers and stack slots relative to the entry sp) is compared with the machine state of the current activation. Non-trivial = at least one derived claim (not an entry seed) was checked; distinct = different program + inputs.",
             &["reference machine", "callees are ABI-safe by construction; a trace is cut where a function writes at/above its entry sp", "RARS environment-call register table taken from the analyzer", "other value kinds (register+scalar, memory-at, CSR) are not claims in the sense of the statement"],
+        ),
+        entry::<c02::C02>(
+            "C02",
+            900,
+            4000,
+            200_000,
+            "programs from three generators (ABI-safe wild functions; structured arbitrary control flow; chaotic control flow with cross-function jumps and shared code), any number of functions / call sites / loops / recursion / multiple returns. Static half on all: a reference solver computes the least solution of the documented liveness equations over the observed graph with architectural read/write sets from the model; live_in/live_out of every node, arguments()/returns() of every function and the set of 'unused value' warnings must equal it (missing = unsound, extra = not minimal). Dynamic half on the ABI-safe programs x 2-4 input vectors: for every register read on the machine, the register must be live from its defining write (or frame entry, call or ecall by convention) along the executed path of its activation; callee read-before-write argument registers must be inferred arguments and live-in at the call; values left by a callee and read by the caller must be inferred returns; no executed-and-read definition carries an 'unused value' warning. Non-trivial = at least one call and one join.",
+            &["reference machine and architectural read/write table", "RARS environment-call register table taken from the analyzer", "ra is not in kill at calls in the documented equations; the reference follows the documentation"],
         ),
         entry::<c03::C03>(
             "C03",
